@@ -170,9 +170,9 @@ def run_shape(shape):
         return out
 
     for path in eng.explore(body):
-        acc.paths += 1
-        if acc.reachable is None:
-            acc.reachable = prover.satisfiable(path.premises) == "sat"
+        acc.begin(prover, path)
+        if acc.reachable is not True:
+            acc.reach(prover.satisfiable(path.premises))
         prem = path.premises
         if path.kind == "exc":
             e = path.value
